@@ -30,6 +30,8 @@ structure Stats where
   nontrivial : Nat := 0
   seen : Std.HashSet UInt64 := {}
   samples : Nat := 0
+  /-- problem lines already printed, per tag (so that a frequent known finding cannot hide a different one) -/
+  reported : Std.HashMap String Nat := {}
 
 def Stats.bump (s : Stats) (k : String) : Stats :=
   { s with counts := s.counts.insert k (s.counts.getD k 0 + 1) }
@@ -65,16 +67,23 @@ partial def loop (h : IO.FS.Stream) (out : IO.FS.Stream) (st : Stats) (maxReport
           st := st.bump s!"guard:{why}"
         | .diff tag detail =>
           st := { st with diff := st.diff + 1 }
-          if st.diff ≤ maxReport then out.putStrLn s!"DIFF {lineno} {tag} {detail} :: {line}"
+          let n := st.reported.getD s!"D{tag}" 0
+          if n < maxReport then
+            st := { st with reported := st.reported.insert s!"D{tag}" (n + 1) }
+            out.putStrLn s!"DIFF {lineno} {tag} {detail} :: {line}"
         | .prop tag why =>
           st := { st with prop := st.prop + 1 }
-          if st.prop ≤ maxReport then out.putStrLn s!"PROP {lineno} {tag} {why} :: {line}"
+          st := st.bump s!"prop:{tag}"
+          let n := st.reported.getD s!"P{tag}" 0
+          if n < maxReport then
+            st := { st with reported := st.reported.insert s!"P{tag}" (n + 1) }
+            out.putStrLn s!"PROP {lineno} {tag} {why} :: {line}"
     loop h out st maxReport
 
 def main (_args : List String) : IO UInt32 := do
   let stdin ← IO.getStdin
   let stdout ← IO.getStdout
-  let st ← loop stdin stdout {} 200
+  let st ← loop stdin stdout {} 25
   for (k, n) in st.counts.toList do
     stdout.putStrLn s!"COUNT {k} {n}"
   stdout.putStrLn s!"SUMMARY lines={st.lines} checks={st.checks} ok={st.ok} diff={st.diff} prop={st.prop} guard={st.guard} bad={st.bad} nontrivial={st.nontrivial}"
